@@ -38,6 +38,16 @@ pub fn enumerate() -> Vec<String> {
         for i in p { s.push(' '); s.push_str(mids[i]); }
         v.push(s);
     }
+    // grouping constructs with empty, single and multiple sets
+    for g in ["CUBE", "ROLLUP", "GROUPING SETS"] {
+        for sets in ["(a)", "(a, b)", "((a), (b))", "((a, b), c)", "(())", "((), a)", "(a, ())", "((), (a, b), ())"] {
+            v.push(format!("SELECT a, b FROM t GROUP BY {g} {sets}"));
+            v.push(format!("SELECT a, b FROM t GROUP BY a, {g} {sets} HAVING a > 1"));
+        }
+    }
+    for t in ["GROUP BY ALL", "GROUP BY a WITH ROLLUP", "GROUP BY a WITH CUBE", "GROUP BY a WITH TOTALS", "GROUP BY ()"] {
+        v.push(format!("SELECT a FROM t {t}"));
+    }
     // select-list modifiers in every order
     let mods = ["DISTINCT", "ALL", "AS VALUE", "AS STRUCT", "TOP 3", "DISTINCT ON (a)", "TOP (3) PERCENT WITH TIES"];
     for p in perms_upto3(&mods) {
